@@ -96,6 +96,7 @@ class VarSim:
         self.fn_move_assign = pats.get("move_assignment", "operator=", must_call="generic_assign")
         self.fn_copy_assign = pats.get("copy_assignment", "operator=", must_call="generic_assign")
         self.nobj = 0
+        self.throw_kinds = set()         # kinds of element operations for which an exceptional successor was generated
 
     # -- values ---------------------------------------------------------------------------------------------------------
     def val(self, n, fr, st):
@@ -363,6 +364,7 @@ class VarSim:
                 if not a or a[0] != "alt":
                     raise Unknown("assignment to the value of an unknown alternative")
                 self.need_live(st, a[1], a[2], n, "the element assignment")
+                self.throw_kinds.add("assign")
                 st2 = self.cst(st)
                 st[a[1]]["mod"] = True
                 st2[a[1]]["mod"] = True
@@ -486,6 +488,7 @@ class VarSim:
                 if a and b2 and a[0] == "value" and b2[0] == "value":
                     self.need_live(st, a[1], a[2], n, "the element swap")
                     self.need_live(st, b2[1], b2[2], n, "the element swap")
+                    self.throw_kinds.add("swap")
                     st2 = self.cst(st)
                     return [("normal", fr, st), ("throw", self.cfr(fr), st2)]
                 if a and b2 and a[0] == "ptr" and b2[0] == "ptr":
@@ -535,6 +538,7 @@ class VarSim:
         self.prim_construct(st, obj, idx, n, "construct_alt")
         outs = [("normal", fr, st)]
         if not nothrow:
+            self.throw_kinds.add("construct")
             outs.append(("throw", self.cfr(fr), st_throw))
         return outs
 
@@ -622,7 +626,9 @@ def rule_life(rep, d, pats):
         for b in (None, 0):
             jobs.append((nm, f, {"this": "this", "bind": {p0: ("obj", "other")}, "I": None}, "uninit", b, None, post_same_as_other, {"other": "that"}))
 
+    kinds_by_label = {}
     for lab, fn, frame, a, b, I, post, names in jobs:
+        sim.throw_kinds = set()
         st = {}
         st["this"] = {"s": None, "i": "uninit", "mod": False} if a == "uninit" else mk(a)
         if b != "-":
@@ -645,6 +651,7 @@ def rule_life(rep, d, pats):
         except (Unknown, cj.AnalysisBroken) as e:
             rep.inconclusive(R, lab, "lifetime typestate", where=d.where(fn), scenario=scen, detail=str(e))
             continue
+        kinds_by_label.setdefault(lab, set()).update(sim.throw_kinds)
         if not outs:
             rep.inconclusive(R, lab, "lifetime typestate", where=d.where(fn), scenario=scen, detail="no feasible path")
             continue
@@ -670,6 +677,37 @@ def rule_life(rep, d, pats):
         else:
             kinds = sorted({o for o, _ in outs})
             rep.holds(R, lab, "lifetime typestate", where=d.where(fn), scenario=scen, detail="%d outcome(s): %s" % (len(outs), ", ".join(kinds)))
+
+
+    # C05.noexcept: a conditional noexcept-specification must name a nothrow trait for every kind of element operation the body can raise from
+    TRAIT = {"construct": "is_nothrow_move_constructible", "assign": "is_nothrow_move_assignable", "swap": "is_nothrow_swappable"}
+    vswap = [f for f in pats.by.get(("variant", "swap"), []) if pats.calls(f, "swap")]
+    table = [("move_constructor::move_constructor", sim.fn_move_ctor, "move_constructor::move_constructor"),
+             ("move_assignment::operator=", sim.fn_move_assign, "move_assignment::operator="),
+             ("variant::swap", vswap[0] if vswap else None, "impl::swap")]
+    for lab, fn, src in table:
+        if fn is None:
+            rep.inconclusive("C05.noexcept", lab, "noexcept-specification", detail="function not found")
+            continue
+        q = (fn.get("type") or {}).get("qualType", "")
+        m = re.search(r"noexcept\((.*)\)\s*$", q)
+        kinds = kinds_by_label.get(src, set())
+        if not m:
+            # unconditional noexcept or none at all
+            if re.search(r"\bnoexcept\b", q) and kinds:
+                rep.violates("C05.noexcept", lab, "noexcept-specification", where=d.where(fn),
+                             detail="declared unconditionally noexcept although its body can raise from element %s" % ", ".join(sorted(kinds)))
+            else:
+                rep.holds("C05.noexcept", lab, "noexcept-specification", where=d.where(fn), detail="not noexcept: exceptions propagate")
+            continue
+        missing = [TRAIT[k] for k in sorted(kinds) if TRAIT[k] not in m.group(1)]
+        if missing:
+            rep.violates("C05.noexcept", lab, "noexcept-specification", where=d.where(fn),
+                         detail="the body can raise from element %s, but the noexcept condition `%s` does not require %s: an exception from that operation meets a "
+                                "noexcept function and the process is terminated instead of the variant becoming valueless / keeping its value" % (
+                                    ", ".join(sorted(kinds)), m.group(1)[:140], ", ".join(missing)))
+        else:
+            rep.holds("C05.noexcept", lab, "noexcept-specification", where=d.where(fn), detail="requires %s" % ", ".join(TRAIT[k] for k in sorted(kinds)))
 
 
 # ---------------------------------------------------------------------------------------------------------------------
@@ -1142,6 +1180,8 @@ def run(tier):
                  assumptions=["element constructors, assignments and swaps may throw; destructors do not", "MPARK_CPP14_CONSTEXPR / generic-lambda configuration (C++14 and later)"])
     rep.rule("C05.life", "at every normal and exceptional exit of the lifetime machinery each variant is valueless with no live alternative, or holds exactly the "
                          "alternative its index reports; no construction over a live alternative, no destruction of a dead one; results have the requested / source index")
+    rep.rule("C05.noexcept", "the conditional noexcept-specification of the move constructor, move assignment and swap requires a nothrow trait for every kind of element "
+                             "operation (move construction, move assignment, swap) from which the simulated body has an exceptional successor")
     rep.rule("C05.shape", "valueless_by_exception() is index_ == index_t(-1); index() maps valueless to variant_npos; base constructors publish -1 / I; construct_alt is "
                           "a placement new at the alternative; the destroy visitor is an explicit destructor call")
     rep.rule("C05.relop", "each relational operator yields the [variant.relops] result for every (lhs valueless, rhs valueless, index order) and compares same-index values "
